@@ -46,9 +46,15 @@ if not getattr(_b, "_vp_c01_loading", False):
         _b._vp_c01_loading = False
 for _h in (_m.HARNESSES if _m else []):
     if _h["name"] in ("insert_nested2", "insert_nested3"): _h2 = dict(_h); _h2["name"] = "C01_" + _h["name"]; HARNESSES.append(_h2)      # the put-back of a refused insertion
+GE_ENC = ["hwloc_topology_alloc_group_object", "hwloc_topology_insert_group_object", "hwloc__insert_object_by_cpuset", "hwloc___insert_object_by_cpuset", "hwloc__insert_try_merge_group", "hwloc_obj_add_children_sets", "hwloc__reconnect", "hwloc_connect_children", "hwloc_connect_levels", "hwloc_set_group_depth", "hwloc_propagate_symmetric_subtree"]
+for k in range(24):
+    tiers = {"thorough": {"defines": {"NSLICE": 24, "SLICE": k, "NG1": 12, "NG2": 12}, "timeout": 3000}}
+    if k < 12: tiers["quick"] = {"defines": {"NSLICE": 12, "SLICE": k, "NG1": 4, "NG2": 8}}
+    HARNESSES.append(dict(COMMON, name="group_enum_%02d" % k, entry="h_group_enum", encoded=GE_ENC, unwind=20, tiers=tiers, cost=90, object_bits=13,
+                          bounds="flat seed S9 (Machine, PUs 0,1,2,5, one NUMA node): a first Group over one of 4 (thorough: 12) cpusets followed by a second one over one of 8 (12) cpusets or none: new Group, merge into an equal object, nesting, conflict (EINVAL, everything unchanged); concrete runs selected by symbolic inputs, dealt to slices; after every step the independent C01 checker, gp_index/userdata/sets of existing objects unchanged"))
 # the whole real restrict on seed S2 followed by the independent C01 checker is shared with C08 (same source, same queries)
 _s8 = _iu.spec_from_file_location("spec_C08", os.path.join(os.path.dirname(__file__), "C08.py")); _m8 = _iu.module_from_spec(_s8); _s8.loader.exec_module(_m8)
 for _h in _m8.HARNESSES:
     if _h["name"].startswith("restrict_enum_s2_"): _h2 = dict(_h); _h2["name"] = "C08_" + _h["name"]; HARNESSES.append(_h2)
-OUTSIDE = ["successful Group insertion + reconnect, distance-based grouping (tree surgery under symbolic control); restrict of whole trees only for the enumerated sets and flags", "arbitrary-length call histories except through the one-step argument on the asserted invariants",
+OUTSIDE = ["distance-based grouping; Group insertion and restrict on whole trees only for the enumerated sets, flags and seeds", "arbitrary-length call histories except through the one-step argument on the asserted invariants",
            "cpukinds (C15), distances (C13), memattrs (C14) steps are decided by their own properties"]
